@@ -107,6 +107,28 @@ TARGETS = [
     dict(file="bitstring/bits.py", cls="Bits", func="__add__", lean="add", mode="trace", pynames=["bs"], params=[],
          lens={"len(bs)": "len_bs"}),
     dict(file="bitstring/array_.py", cls="Array", func="pop", lean="array_pop", mode="trace", pynames=["i"], params=[("i", "int")]),
+    # ---- batch 5: the length rules of the integer / float setters and the whole-byte rules of the endian getters --------
+    dict(file="bitstring/bits.py", cls="Bits", func="_setuint", lean="setuint", mode="trace",
+         pynames=["uint", "length"], params=[("length", "optint")], bools={"hasattr(self, 'len')": "has_len"}),
+    dict(file="bitstring/bits.py", cls="Bits", func="_setint", lean="setint", mode="trace",
+         pynames=["int_", "length"], params=[("length", "optint")], bools={"hasattr(self, 'len')": "has_len"}),
+    dict(file="bitstring/bits.py", cls="Bits", func="_setuintbe", lean="setuintbe", mode="trace",
+         pynames=["uintbe", "length"], params=[("length", "optint")], bools={"hasattr(self, 'len')": "has_len"}),
+    dict(file="bitstring/bits.py", cls="Bits", func="_setintbe", lean="setintbe", mode="trace",
+         pynames=["intbe", "length"], params=[("length", "optint")], bools={"hasattr(self, 'len')": "has_len"}),
+    dict(file="bitstring/bits.py", cls="Bits", func="_setuintle", lean="setuintle", mode="trace",
+         pynames=["uintle", "length"], params=[("length", "optint")], bools={"hasattr(self, 'len')": "has_len"}),
+    dict(file="bitstring/bits.py", cls="Bits", func="_setintle", lean="setintle", mode="trace",
+         pynames=["intle", "length"], params=[("length", "optint")], bools={"hasattr(self, 'len')": "has_len"}),
+    dict(file="bitstring/bits.py", cls="Bits", func="_setfloat", lean="setfloat", mode="trace",
+         pynames=["f", "length", "big_endian"], params=[("length", "optint"), ("big_endian", "bool")],
+         bools={"hasattr(self, 'len')": "has_len"}),
+    dict(file="bitstring/bits.py", cls="Bits", func="_getuint", lean="getuint", mode="trace", params=[]),
+    dict(file="bitstring/bits.py", cls="Bits", func="_getint", lean="getint", mode="trace", params=[]),
+    dict(file="bitstring/bits.py", cls="Bits", func="_getuintbe", lean="getuintbe", mode="trace", params=[]),
+    dict(file="bitstring/bits.py", cls="Bits", func="_getintbe", lean="getintbe", mode="trace", params=[]),
+    dict(file="bitstring/bits.py", cls="Bits", func="_getuintle", lean="getuintle", mode="trace", params=[]),
+    dict(file="bitstring/bits.py", cls="Bits", func="_getintle", lean="getintle", mode="trace", params=[]),
     # ---- batch 3: loops ----------------------------------------------------------------------------------------------
     dict(file="bitstring/bits.py", cls="Bits", func="_imul", lean="imul_loop", mode="trace", params=[("n", "int")], fuel={1: "n"}),
     # BitArray.invert(pos) once pos is an iterable of ints (the part after the None / single-int dispatch)
@@ -406,6 +428,17 @@ class Tr:
             return f"({c1} {op} {c2})"
         if isinstance(n, ast.UnaryOp) and isinstance(n.op, ast.Not):
             return f"(!{self.cond(n.operand, env)})"
+        if isinstance(n, ast.Compare) and len(n.ops) == 1 and isinstance(n.ops[0], (ast.In, ast.NotIn)) \
+                and isinstance(n.comparators[0], (ast.List, ast.Tuple, ast.Set)):
+            a, t = self.expr(n.left, env)
+            self.need(t, "int", n)
+            alts = []
+            for e in n.comparators[0].elts:
+                b, tb = self.expr(e, env)
+                self.need(tb, "int", n)
+                alts.append(f"decide ({a} = {b})")
+            c = "(" + " || ".join(alts) + ")" if alts else "false"
+            return f"(!{c})" if isinstance(n.ops[0], ast.NotIn) else c
         if isinstance(n, ast.Compare):
             terms = [n.left] + list(n.comparators)
             xs = [self.expr(x, env) for x in terms]
